@@ -15,8 +15,13 @@ type genCtx struct {
 func (g *genCtx) add(c *Case) {
 	c.ID = caseID(g.prop, len(g.cases))
 	g.cases = append(g.cases, c)
-	// the builder model is compared with the real builder on a quarter of the path expressions
-	if c.Kind == "sel" && (g.prop == "C01" || g.prop == "C02" || g.prop == "C03" || g.prop == "C11") && len(g.cases)%4 == 0 {
+	// the builder model is compared with the real builder (plan dumps) on a quarter of the path expressions
+	// of C01/C02/C03/C11 and on an eighth of the expressions of the other evaluation properties
+	every := 8
+	if g.prop == "C01" || g.prop == "C02" || g.prop == "C03" || g.prop == "C11" {
+		every = 4
+	}
+	if (c.Kind == "sel" || c.Kind == "eval") && g.prop != "C06" && g.prop != "C16" && g.prop != "C17" && len(g.cases)%every == 0 {
 		pc := &Case{Kind: "plan", NS: c.NS, Expr: c.Expr}
 		pc.ID = caseID(g.prop, len(g.cases))
 		g.cases = append(g.cases, pc)
